@@ -204,9 +204,17 @@ def handmade(which, policy):
 
 def rebuild(ops):
     w = World(listen=False)
-    for op in ops:
+    for k, op in enumerate(ops):
         out = w.apply(op)
         if out != 'ok':
+            # the only refused ops a recipe keeps are the attempts of `refused_adds` (a taken name with a new
+            # EDIF identifier): they allocate objects, so they stay in the recipe; anything else is an error
+            if op[0] == 'create' and 'EDIF.identifier' in ''.join(chr(int(x)) for x in op[5].split(',') if x.isdigit()) if len(op) > 5 and op[4] == '1' else False:
+                w.refused_ops = getattr(w, 'refused_ops', {})
+                w.refused_ops[k] = out
+                idn = ''.join(chr(int(x)) for x in op[6][2:].split(',') if x.isdigit())
+                w.extra_patterns = getattr(w, 'extra_patterns', []) + [idn]
+                continue
             w.close()
             raise RuntimeError('recipe op refused on replay: %r -> %s' % (op, out))
     return w
